@@ -582,9 +582,20 @@ fn gen_cat(r: &mut Rng, cat: u8, g: &RefGraph, nv: &NamedView, p: &Profile, next
         20 => {
             let mut vs = g.vertices();
             r.shuffle(&mut vs);
-            let k = r.below(vs.len() + 1);
-            vs.truncate(k);
-            vec![Op::Subgraph { verts: vs }]
+            if r.chance(0.3) && !vs.is_empty() {
+                // a tiny selection around one vertex: it and up to three of its neighbours
+                let v = vs[0];
+                let mut sel = vec![v];
+                let mut nb: Vec<M> = g.nbrs(v).into_iter().map(|x| x.0).collect();
+                r.shuffle(&mut nb);
+                let k = r.below(4);
+                sel.extend(nb.into_iter().filter(|&w| w != v).take(k));
+                vec![Op::Subgraph { verts: sel }]
+            } else {
+                let k = r.below(vs.len() + 1);
+                vs.truncate(k);
+                vec![Op::Subgraph { verts: vs }]
+            }
         }
         21 => {
             if n > p.cap + 2 {
